@@ -42,6 +42,7 @@ class Injector:
         self.count = 0
         self.fired = None
         self.sites = {}
+        self.ks_by_file = {}        # count mode: the k values of every line, per labtech file
         self.pid = None
         self.tid = None
         self.armed = False
@@ -88,6 +89,7 @@ class Injector:
         if self.k is None:
             key = ((fn[len(self.pkg_dir):] if fn.startswith(self.pkg_dir) else 'py:' + os.path.basename(fn)), code.co_name)
             self.sites[key] = self.sites.get(key, 0) + 1
+            self.ks_by_file.setdefault(key[0], []).append(self.count)
             return None
         if self.count == self.k:
             self.armed = False
